@@ -1191,7 +1191,150 @@ pub fn run(tier: Tier, _budget: f64, out: &mut Outcome) -> Result<(), MachineryE
     Ok(())
 }
 
+/// C09 with the real transport: messages that are waiting inside the client's link conditioner
+/// (configured latency) when the client disconnects belong to the old session; after a reconnect
+/// nothing of them may be handed over. `n` messages are in flight, the client stays disconnected
+/// for `gap` frames. `Ok(None)`: timing made the run inconclusive.
+pub fn conditioner_across_sessions(n: usize, gap: usize) -> Result<Option<u64>, String> {
+    use bevy_replicon_example_backend::ConditionerConfig;
+    let mut server = build_app();
+    let mut client = build_app();
+    let socket = ExampleServer::new(0).map_err(|e| format!("bind: {e}"))?;
+    let port = socket.local_addr().map_err(|e| e.to_string())?.port();
+    server.insert_resource(socket);
+    client.insert_resource(ConditionerConfig { latency: 150, jitter: 0, loss: 0.0 });
+    client.insert_resource(ExampleClient::new(port).map_err(|e| format!("connect: {e}"))?);
+    let authorized = |server: &mut App| {
+        let w = server.world_mut();
+        let mut q = w.query_filtered::<Entity, With<AuthorizedClient>>();
+        q.iter(w).count()
+    };
+    let mut up = false;
+    for _ in 0..600 {
+        server.update();
+        client.update();
+        if authorized(&mut server) == 1 && client.world().resource::<RepliconClient>().is_connected() {
+            up = true;
+            break;
+        }
+        std::thread::sleep(Duration::from_millis(1));
+    }
+    if !up {
+        return Ok(None);
+    }
+    client.world_mut().resource_mut::<Got>().0.clear();
+    for i in 0..n as u32 {
+        server.world_mut().send_event(ToClients { mode: SendMode::Broadcast, event: Down0(100 + i, payload(i, 16)) });
+    }
+    server.update();
+    std::thread::sleep(Duration::from_millis(3));
+    // the client reads the socket: the messages now wait inside its conditioner
+    client.update();
+    if !client.world().resource::<Got>().0.is_empty() {
+        return Ok(None);
+    }
+    // the session ends
+    client.world_mut().remove_resource::<ExampleClient>();
+    for _ in 0..gap {
+        client.update();
+        server.update();
+        std::thread::sleep(Duration::from_millis(1));
+    }
+    if !client.world().resource::<RepliconClient>().is_disconnected() {
+        return Ok(None);
+    }
+    // a new session
+    client.insert_resource(ExampleClient::new(port).map_err(|e| format!("reconnect: {e}"))?);
+    let t0 = std::time::Instant::now();
+    let mut again = false;
+    let mut got: Vec<(u8, u32, Vec<u8>)> = Vec::new();
+    while t0.elapsed() < Duration::from_millis(320) {
+        server.update();
+        client.update();
+        got.append(&mut client.world_mut().resource_mut::<Got>().0);
+        again |= authorized(&mut server) >= 1 && client.world().resource::<RepliconClient>().is_connected();
+        std::thread::sleep(Duration::from_millis(1));
+    }
+    if !again {
+        return Ok(None);
+    }
+    // a message of the new session still arrives (after the configured latency)
+    server.world_mut().send_event(ToClients { mode: SendMode::Broadcast, event: Down0(7, payload(7, 16)) });
+    let t1 = std::time::Instant::now();
+    while t1.elapsed() < Duration::from_millis(260) {
+        server.update();
+        client.update();
+        got.append(&mut client.world_mut().resource_mut::<Got>().0);
+        std::thread::sleep(Duration::from_millis(1));
+    }
+    let stale: Vec<u32> = got.iter().filter(|m| m.1 >= 100).map(|m| m.1).collect();
+    if !stale.is_empty() {
+        return Err(format!(
+            "{n} message(s) were waiting in the client's link conditioner (latency 150 ms) when it disconnected; after {gap} disconnected frame(s) and a reconnect the new session was handed the old session's message(s) {stale:?}"
+        ));
+    }
+    if !got.iter().any(|m| m.1 == 7) {
+        return Ok(None);
+    }
+    Ok(Some(got.len() as u64))
+}
+
+/// Runs the C09 loopback scenarios and records a violation file for the first failing one.
+pub fn c09_sessions_part(out: &mut Outcome) -> Result<(), MachineryError> {
+    let mut inconclusive = 0u64;
+    let cases = [(1usize, 1usize), (3, 1), (1, 3), (3, 3)];
+    for (n, gap) in cases {
+        let mut r = Ok(None);
+        for _attempt in 0..3 {
+            r = guarded(|| conditioner_across_sessions(n, gap)).unwrap_or_else(|(m, l)| Err(format!("panic: {m} ({l})")));
+            if !matches!(r, Ok(None)) {
+                break;
+            }
+        }
+        out.evaluations += 1;
+        out.transitions += 600;
+        match r {
+            Ok(None) => inconclusive += 1,
+            Ok(Some(_)) => out.nontrivial += 1,
+            Err(e) if e.starts_with("bind") || e.starts_with("connect") => return Err(MachineryError(format!("loopback sockets unavailable: {e}"))),
+            Err(detail) => {
+                out.violation_total += 1;
+                let dir = std::path::Path::new(&check::verif_root()).join("replays").join("C09");
+                let _ = std::fs::create_dir_all(&dir);
+                let path = dir.join(format!("{:016x}.json", crate::explore::hash_of(&("c09-sessions", n, gap))));
+                let doc = json!({"property": "C09", "kind": "loopback", "c09_sessions": [n, gap],
+                    "violation": {"property": "C09", "oracle": "stale-session-message", "detail": detail}});
+                std::fs::write(&path, serde_json::to_string_pretty(&doc).unwrap()).unwrap();
+                out.new_violations.push(path);
+                break;
+            }
+        }
+    }
+    out.reports.push(json!({"cell": "c09-conditioner-across-sessions", "cases": cases.len(), "inconclusive": inconclusive, "exhaustive_within_bound": true}));
+    eprintln!("  C09: {} reconnects over loopback TCP with messages waiting in the client's conditioner ({} inconclusive)", cases.len(), inconclusive);
+    Ok(())
+}
+
 pub fn replay(doc: &serde_json::Value) -> i32 {
+    if let Some(a) = doc["c09_sessions"].as_array() {
+        let (n, gap) = (a[0].as_u64().unwrap() as usize, a[1].as_u64().unwrap() as usize);
+        println!("{n} message(s) in the client's conditioner at the disconnect, {gap} disconnected frame(s), reconnect");
+        for _ in 0..3 {
+            match conditioner_across_sessions(n, gap) {
+                Ok(None) => continue,
+                Ok(Some(_)) => {
+                    println!("replay passes: no violation");
+                    return 0;
+                }
+                Err(e) => {
+                    println!("VIOLATION property=C09 replay=<file> oracle=stale-session-message :: {e}");
+                    return 1;
+                }
+            }
+        }
+        println!("replay inconclusive (timing)");
+        return 0;
+    }
     let r = if doc["kind"] == "conditioner" {
         let ops: Vec<HOp> = doc["ops"]
             .as_array()
